@@ -1386,7 +1386,9 @@ LOOP:
 							l.ctx = l.contexts[last]
 							l.contexts = l.contexts[:last]
 						}
-					case tokenIf, tokenFor, tokenSwitch, tokenSelect:
+					case tokenIf, tokenFor, tokenSwitch, tokenSelect, tokenRaw:
+						// Also raw is closed by an end statement, that restores
+						// a context.
 						if len(l.contexts) > 0 {
 							l.contexts = append(l.contexts, l.ctx)
 						}
